@@ -269,8 +269,9 @@ def correspond(ctx, exe, n_objects, n_oracle, n_inst):
         descs = fixed + [orc.gen_desc(rng, ctx.thorough) for _ in range(n_oracle - len(fixed))] + \
                 [gen_corr_desc(rng, ctx.thorough) for _ in range(n_objects - n_oracle)]
         oracle_descs = descs[:n_oracle]
-        f1 = os.path.join(tmpdir, 'a.incon'); f2 = os.path.join(tmpdir, 'b.incon')
-        wl, rl, cl, w2l = [], [], [], []
+        f1 = os.path.join(tmpdir, 'a.incon'); f2 = os.path.join(tmpdir, 'b.incon'); f3 = os.path.join(tmpdir, 'c.incon')
+        wl, rl, cl, w2l, wl_b, impl_wb = [], [], [], [], [], []
+        nobj = 0
         nhang = 0
         impl_w, impl_r, impl_w2, ptexts = [], [], [], []
         for k, d in enumerate(descs):
@@ -278,13 +279,28 @@ def correspond(ctx, exe, n_objects, n_oracle, n_inst):
             wl.append(write_case(d['reset'], toks))
             if k < n_inst or n_oracle <= k < n_oracle + n_inst // 3:
                 cl.append((k, '\t'.join(['C', nvtok(d['nv']), '1' if d['check'] else '0', '1' if d['reset'] else '0'] + toks)))
+            wl_b.append(write_case(not d['reset'], toks))
             try:
-                orc.build(d).write(f1, reset=d['reset'])
+                obj = orc.build(d)
+                obj.write(f1, reset=d['reset'])
                 text = open(f1, newline='').read()
                 impl_w.append(('OK', text))
             except Exception as e:
-                impl_w.append(('RAISE', type(e).__name__)); impl_r.append(None); impl_w2.append(None); ptexts.append(None)
+                impl_w.append(('RAISE', type(e).__name__)); impl_r.append(None); impl_w2.append(None); ptexts.append(None); impl_wb.append(None)
                 continue
+            # a further write on the SAME object with the other flag, and the object after the two writes: the model's
+            # write is a function of (flag, object) and has no effect on the object
+            try:
+                obj.write(f3, reset=not d['reset'])
+                impl_wb.append(('OK', open(f3, newline='').read()))
+            except Exception as e:
+                impl_wb.append(('RAISE', type(e).__name__))
+            after = enc_snapshot(orc.snapshot(obj))
+            if after != ['?type'] and enc_snapshot(orc.snapshot(orc.build(d))) != ['?type']:
+                nobj += 1
+                if after != enc_snapshot(orc.snapshot(orc.build(d))):
+                    k2 = next((i for i, (a, b) in enumerate(zip(after, enc_snapshot(orc.snapshot(orc.build(d))))) if a != b), -1)
+                    ctx.disagreement('object-after-writes(model: unchanged)', orc.desc_to_json(d), 'unchanged', 'token %d: %r' % (k2, after[k2] if k2 >= 0 else len(after)))
             r = impl_read(f1, d['nv'], d['check'], limit=1)
             impl_r.append(r)
             nhang += r[0] == 'HANG'
@@ -308,6 +324,13 @@ def correspond(ctx, exe, n_objects, n_oracle, n_inst):
             if (m[0] == 'OK') != (im[0] == 'OK') or (m[0] == 'OK' and m[1] != im[1]):
                 ctx.disagreement('model-write-vs-t2incon.write', orc.desc_to_json(d), repr(m)[:600], repr(im)[:600])
         ctx.corr_cases('model-write-vs-t2incon.write', len(descs), implementation_raised=sum(1 for x in impl_w if x[0] != 'OK'))
+        for d, mo, im in zip(descs, run_model(exe, wl_b[:len(impl_wb)], shards), impl_wb):
+            if im is None: continue
+            m = written_text(model_result(mo))
+            if (m[0] == 'OK') != (im[0] == 'OK') or (m[0] == 'OK' and m[1] != im[1]):
+                ctx.disagreement('model-write-vs-second-write-on-same-object', orc.desc_to_json(d), repr(m)[:600], repr(im)[:600])
+        ctx.corr_cases('model-write-vs-second-write-on-same-object', sum(1 for x in impl_wb if x is not None))
+        ctx.corr_cases('object-after-writes(model: unchanged)', nobj)
         lap(ctx, 'model writes done')
         # model reads of the implementation's files
         mouts = run_model(exe, [l for _, l in rl], shards)
